@@ -236,7 +236,7 @@ inline Plan gen_plan(uint64_t seed, uint64_t index, Tier tier, int profile, bool
         for (int q = 0; q < n; ++q)
         {
             double u = r.unit();
-            if (u < 0.55) g.op(OP_CONCURRENT, {0, g.rnd(3), r.chance(0.6) ? 1 : 0, g.rnd(1u << 30), 0, (r.chance(0.3) ? 1 : 0) | (r.chance(0.15) ? 2 : 0) | (r.chance(0.15) ? 4 : 0)});
+            if (u < 0.55) g.op(OP_CONCURRENT, {0, g.rnd(3), r.chance(0.6) ? 1 : 0, g.rnd(1u << 30), 0, (r.chance(0.3) ? 1 : 0) | (r.chance(0.15) ? 2 : 0) | (r.chance(0.15) ? 4 : 0) | (r.chance(0.2) ? 8 : 0) | (r.chance(0.15) ? 16 : 0)});
             else if (u < 0.85) g.eval(0, CHK_TWIN, -1, 0, (int)r.range(1, 5));
             else g.configure(0, r.chance(0.5));
         }
@@ -258,6 +258,18 @@ inline Plan gen_plan(uint64_t seed, uint64_t index, Tier tier, int profile, bool
             else if (u < 0.6) g.op(OP_MUTATE_USER_MAP, {g.rnd(2), g.rnd(3), g.rnd(6)});
             else if (u < 0.64) { int kk = r.chance(0.5) ? OP_SET_TMAP : OP_SET_SMAP; int64_t hh = g.rnd(3), mm = g.rnd(3); g.op(kk, {hh, mm}); }
             else if (u < 0.68) { int64_t k = g.rnd(3); g.op(OP_CONSTRUCT, {k, g.rnd(3), g.rnd(5), g.rnd(5), g.rnd(4)}); g.configure(k, true); }
+            else if (u < 0.70)
+            {
+                // maps are installed on a freshly constructed optimizer, it is copied BEFORE any initialisation, and only
+                // then both get a problem
+                int64_t a = g.rnd(3), b = (a + 1 + g.rnd(2)) % 3, n0 = g.pick_N(), sd = g.rnd(1u << 30);
+                g.op(OP_CONSTRUCT, {a, g.rnd(3), g.rnd(5), g.rnd(5), g.rnd(4)});
+                g.op(OP_SET_TMAP, {a, 1 + g.rnd(2)});
+                g.op(OP_SET_SMAP, {a, 1 + g.rnd(2)});
+                g.op(r.chance(0.5) ? OP_COPY : OP_ASSIGN, {a, b, sd, 0});
+                g.set_init(b, n0);
+                g.eval(b, CHK_TWIN);
+            }
             else if (u < 0.74) g.configure(g.rnd(3), true); // source mutation
             else if (u < 0.84) g.op(OP_CONCURRENT, {g.rnd(3), g.rnd(3), g.rnd(2), g.rnd(1u << 30), 1 + g.rnd(2)});
             else { int64_t hh = g.rnd(3); int wsel = r.chance(0.5) ? 4 : -1; g.eval(hh, CHK_TWIN, wsel); }
@@ -298,7 +310,7 @@ inline Plan gen_plan(uint64_t seed, uint64_t index, Tier tier, int profile, bool
             g.op(OP_SET_FLAGS, {0, g.rnd(256)});
             g.op(OP_SET_RHO, {0, 0});
             g.op(OP_SET_K, {0, r.range(1, 8)});
-            g.op(OP_CHECKGRAD, {0, g.rnd(1u << 30), g.rnd(5), 0, r.chance(0.6) ? 4 : 0, 0, 0, 0, 0, 0}, {1.0});
+            g.op(OP_CHECKGRAD, {0, g.rnd(1u << 30), g.rnd(5), 0, r.chance(0.6) ? 4 : 0, 0, 0, r.chance(0.5) ? 2 : 0, 0, 0}, {1.0});
             break;
         }
         g.configure(0, true);
@@ -308,7 +320,7 @@ inline Plan gen_plan(uint64_t seed, uint64_t index, Tier tier, int profile, bool
             if (q > 0 && r.chance(0.4)) g.configure(0, r.chance(0.3));
             int functor = r.chance(0.4) ? 0 : (int)r.range(1, 3); // (functor 4, "never writes its gradient", is used with the isolated time cost above)
             double delta = (r.chance(0.5) ? 1.0 : -1.0) * r.logreal(1e-3, 1e3);
-            g.op(OP_CHECKGRAD, {0, g.rnd(1u << 30), g.rnd(5), r.chance(0.7) ? 1 : 0, functor, g.rnd(16), g.rnd(8), r.chance(0.12) ? 1 : 0, r.chance(0.25) ? 1 : 0, r.chance(0.1) ? 1 + g.rnd(1u << 20) : 0}, {delta});
+            g.op(OP_CHECKGRAD, {0, g.rnd(1u << 30), g.rnd(5), r.chance(0.7) ? 1 : 0, functor, g.rnd(16), g.rnd(8), (r.chance(0.12) ? 1 : 0) | (r.chance(0.3) ? 2 : 0), r.chance(0.25) ? 1 : 0, r.chance(0.1) ? 1 + g.rnd(1u << 20) : 0}, {delta});
         }
         break;
     }
